@@ -12,7 +12,7 @@ from ..simpleprop import SimpleProperty
 
 warnings.filterwarnings("ignore")
 SUPPORTED_EXTRA = ["text/html", "*/*", "application/x-binary-rdf-results-table", "text/tab-separated-values", "text/plain"]
-SAFE = ["a", "b", "1", "_", "-", ".", "G", "O"]
+SAFE = ["a", "b", "1", "_", "-", ".", "G", "O", "é", "日", "Ü", "%20", "𝔘"]
 
 
 def _stub_multipart():
@@ -71,7 +71,8 @@ class C18(SimpleProperty):
         return 48 if tier == "quick" else 1600
 
     def gen(self, rng, tier):
-        bases = ["http://a.example/", "http://a.example/x_", "https://b.example/id/", "http://c.example/c#", "urn:d:"]
+        bases = ["http://a.example/", "http://a.example/x_", "https://b.example/id/", "http://c.example/c#", "urn:d:",
+                 "http://ü.example/日本/", "https://de.example/wiki/Ü"]
         n = rng.randint(1, 3)
         uris = rng.sample(bases, min(len(bases), n + rng.randint(0, 2)))
         groups = gen.deal(rng, uris, n)
@@ -85,7 +86,13 @@ class C18(SimpleProperty):
                 qs.append(rng.choice(allu) + ident)
             else:
                 qs.append("http://unknown.example/" + ident)
-        return {"records": recs, "uris": qs, "hseed": rng.randrange(10 ** 9)}
+        case = {"records": recs, "uris": qs, "hseed": rng.randrange(10 ** 9)}
+        if rng.random() < 0.4:
+            # the graph and the apps are built from a converter that is still being curated: they answer every query
+            # once, then the converter acquires the remaining records and synonyms
+            first, later = gen.split_history(rng, recs)
+            case["hist"] = {"first": first, "later": [[k, r] for k, r in later]}
+        return case
 
     def run_impl(self, case):
         import random
@@ -96,7 +103,8 @@ class C18(SimpleProperty):
         from curies.mapping_service import utils as U
 
         _stub_multipart()
-        conv = Converter([common.dec_record(r) for r in case["records"]])
+        hist = case.get("hist")
+        conv = Converter([common.dec_record(r) for r in (hist["first"] if hist else case["records"])])
         graph = MappingServiceGraph(converter=conv)
         proc = MappingServiceSPARQLProcessor(graph=graph)
         out = {"graph": [], "other_pred": [], "flask_get": [], "flask_post": [], "fastapi_get": [], "expand_all": []}
@@ -117,6 +125,16 @@ class C18(SimpleProperty):
             data = json.loads(text)
             return sorted({b[other]["value"] for b in data["results"]["bindings"]})
 
+        if hist:
+            for u in case["uris"]:
+                for direction in ("subject", "object"):
+                    q = sparql(u, direction, "inside")
+                    list(graph.query(q, processor=proc))
+                    fl.get("/sparql", query_string={"query": q}, headers={"accept": "application/json"})
+                    if fa is not None:
+                        fa.get("/sparql", params={"query": q}, headers={"accept": "application/json"})
+            for kind, r in hist["later"]:
+                conv.add_record(common.dec_record(r), merge=(kind == "merge"))
         for u in case["uris"]:
             c = conv.compress(u)
             out["expand_all"].append(None if c is None else list(conv.expand_all(c) or []))
@@ -215,6 +233,10 @@ class C18(SimpleProperty):
     def readable(self, case, impl):
         recs = "; ".join(common.show_record(r) for r in case["records"])
         out = [f"Converter([{recs}])"]
+        if case.get("hist"):
+            out.append("reached by: Converter([" + "; ".join(common.show_record(r) for r in case["hist"]["first"]) + "]), graph and apps "
+                       "built and every query asked once, then " + ", ".join(
+                           f"add_record({common.show_record(r)}, merge={k == 'merge'})" for k, r in case["hist"]["later"]))
         for k, u in enumerate(case["uris"]):
             out.append(f"<{u}>: expand_all(compress) = {impl['expand_all'][k]}; service answers = {impl['graph'][k]}")
         out += [f"handle_header({h['text']!r}) -> {h['got']}" for h in impl["headers"][:8]]
@@ -224,6 +246,8 @@ class C18(SimpleProperty):
         for i in range(len(case["uris"])):
             if len(case["uris"]) > 1:
                 yield {**case, "uris": [case["uris"][i]]}
+        if case.get("hist"):
+            yield {k: v for k, v in case.items() if k != "hist"}
 
 
 PROPERTY = C18()
